@@ -88,13 +88,13 @@ func realFaultKind(c *IOCase) string {
 	switch {
 	case c.StdoutFailAfter == 0 && c.FailAfter < 0 && c.OpenFault == "":
 		return "devfull"
-	case c.StdoutFailAfter >= 0:
+	case c.StdoutFailAfter >= 0 || c.Transient != "":
 		return ""
 	case c.OpenFault == "notexist" || c.OpenFault == "isdir":
 		return c.OpenFault
 	case c.OpenFault != "":
 		return "" // permission faults do not exist for root
-	case c.FailAfter >= 0 && c.Channel == "stdin" && c.FailAfter <= len(c.Text) && len(c.Text) < 70000:
+	case c.FailAfter >= 0 && c.Transient == "" && c.Channel == "stdin" && c.FailAfter <= len(c.Text) && len(c.Text) < 70000:
 		return "pty"
 	}
 	return ""
